@@ -117,6 +117,10 @@ def run_history(cell):
     if cell.get('pools'):
         kw['store_pool'] = 2
         kw['relay_pool'] = 1
+    if cell.get('store_pool'):
+        kw['store_pool'] = cell['store_pool']
+    if cell.get('relay_pool'):
+        kw['relay_pool'] = cell['relay_pool']
     if cell.get('rev_map'):
         # the per-recipient mapping lists the recipients in another order
         # than envelope.recipients (a relay that groups by destination)
